@@ -57,14 +57,23 @@ pub fn c04_case(ctx: &mut Ctx, rng: &mut Rng, stage: &str) {
     };
     ctx.bucket("dict_accepted");
     let o = case.opts[0];
-    let tok = match make_tokenizer(dict, o) {
+    // the tokenizer under test gets its options through a history of setter calls (half of the cases) ...
+    let tok = match make_tokenizer_hist(dict, o, case.spec.cat_index("SPACE").is_some()) {
         Ok(t) => t,
         Err(_) => return,
     };
-    // model: a fresh worker given only the sentence
+    // ... the model is a fresh worker, given only the sentence, of a second tokenizer built from the same files
+    // whose options were set once
+    let plain = match prepare(&case) {
+        Prep::Ready { dict, .. } => match guarded(move || Tokenizer::new(dict).ignore_space(o.ignore_space).map(|t| t.max_grouping_len(o.mgl)).map_err(|e| e.to_string())) {
+            Ok(Ok(t)) => t,
+            _ => return,
+        },
+        _ => return,
+    };
     let mut expected: Vec<Option<Vec<Tok>>> = vec![];
     for s in &case.sentences {
-        let mut w = tok.new_worker();
+        let mut w = plain.new_worker();
         expected.push(tokenize(&mut w, s).ok());
     }
     if expected.iter().any(|e| e.is_none()) {
@@ -72,6 +81,18 @@ pub fn c04_case(ctx: &mut Ctx, rng: &mut Rng, stage: &str) {
         return;
     }
     let expected: Vec<Vec<Tok>> = expected.into_iter().map(|e| e.unwrap()).collect();
+    drop(plain);
+    for (i, s) in case.sentences.iter().enumerate() {
+        let mut w = tok.new_worker();
+        ctx.eval();
+        match tokenize(&mut w, s) {
+            Ok(t) if t == expected[i] => {}
+            other => {
+                ctx.violation("same_options_different_result", "C04:same_options_different_result", format!("two tokenizers of the same dictionary whose options ended up equal (one through a history of setter calls) differ on {:?}: {:?} vs {:?}", s, other.map(|t| toks_brief(&t)), toks_brief(&expected[i])), json!({"files": case.texts(), "opts": o, "sentences": case.sentences}));
+                return;
+            }
+        }
+    }
     if stage != "tsan" && stage != "miri" {
         c04_history(ctx, rng, &case, &tok, &expected, o);
     }
